@@ -27,6 +27,7 @@
    REFUSALS (C11_append_refuse_rank / _shape, C11_concatenate_refuse, C11_stack_refuse, C11_column_stack_refuse,
    C11_vstack_refuse / C11_hstack_refuse / C11_dstack_refuse, C11_vstack_rank1_ragged): operands of different rank, inputs that differ off the joined axis, inputs of different
    shapes for stack, different row counts for column_stack are answered with an error value, never joined.
+   C11_dstack_vectors — n vectors of one length l give the 1 x l x n array whose entry (0, j, k) is element j of input k.
    NOT YET PROVED (checked by the correspondence run): the promotion of rank-0 / mixed-rank inputs by hstack / dstack,
    and splits producing empty blocks (parts > axis length). *)
 From ArrRs Require Import Index Axis Split Join Join_proofs Broadcast_proofs Axis_proofs Split_proofs Append_proofs Stack_proofs Join_refuse.
@@ -223,6 +224,13 @@ Theorem C11_dstack_refuse : forall (T : Type) (d : T) (first : arr T) rest x y,
   Forall (fun a => 3 <= ndim a) (first :: rest) -> In x (first :: rest) -> In y (first :: rest) ->
   remove_nth (shape x) 2 <> remove_nth (shape y) 2 -> dstack d (first :: rest) = Err EConcat.
 Proof. exact @dstack_refuse. Qed.
+
+Theorem C11_dstack_vectors : forall (T : Type) (d : T) l (first : arr T) rest,
+  0 < l -> Forall (fun a => wf a /\ shape a = [l]) (first :: rest) ->
+  exists R, dstack d (first :: rest) = Ok R /\ wf R /\ shape R = [1; l; length (first :: rest)] /\
+    forall j k, j < l -> k < length (first :: rest) ->
+      get d R [0; j; k] = nth j (elems (nth k (first :: rest) first)) d.
+Proof. exact @dstack_vectors. Qed.
 
 Example C11_stack_nonvacuous :
   stack 0%Z [mk [1;2;3;4;5;6]%Z [2;3]; mk [7;8;9;10;11;12]%Z [2;3]] (Some 1) =
